@@ -571,7 +571,7 @@ package corazawaf
 // already or the rule is audit-enabled; the error callback fires exactly once iff the rule has logging enabled and a
 // callback is configured, and it receives the new entry; HIGHEST_SEVERITY becomes the most severe (numerically
 // smallest) of its old value and the rule's severity (rules without a severity leave it alone).
-//@ func (*Transaction).MatchRule props C19,C07
+//@ func (*Transaction).MatchRule props C19,C09,C07
 //@   requires tx.WAF != nil && r != nil && !isnil(tx.debugLogger)
 //@   requires tx.variables.highestSeverity != nil && tx.variables.requestURI != nil && tx.variables.serverAddr != nil && tx.variables.remoteAddr != nil
 //@   requires compiledActions: forall j int :: 0 <= j && j < len(r.actions) ==> !isnil(r.actions[j].Function)
@@ -685,3 +685,25 @@ package corazawaf
 //@     invariant isnil(files) || fresh(files)
 //@     invariant forall s []types.MatchedRule :: !fresh(s) ==> (forall k int :: 0 <= k && k < len(s) ==> s[k] == old(s[k]))
 // ==== END C19 audit section ====
+
+// ==== BEGIN chain id section (C12: "a chain id identifies one transformation list") ====
+// The id table names every chain by its prefix's name, a separator, and the step's name, and maps that name back to
+// the id: ids are interned names. With the separator two different (prefix, step) pairs give different names as long
+// as no transformation name contains the separator, so a cache key built from a chain id never stands for two lists.
+//@ define idTableWF() bool := len(transformationIDToName) >= 1 &&
+//@     (forall i int :: 0 <= i && i < len(transformationIDToName) ==>
+//@         has(transformationNameToID, transformationIDToName[i]) && transformationNameToID[transformationIDToName[i]] == i) &&
+//@     (forall k string :: has(transformationNameToID, k) ==> 0 <= transformationNameToID[k] &&
+//@         transformationNameToID[k] < len(transformationIDToName) && transformationIDToName[transformationNameToID[k]] == k)
+//@ func transformationID props C12,C04
+//@   requires inTable: 0 <= currentID && currentID < len(transformationIDToName)
+//@   requires wf: idTableWF()
+//@   requires noLock: forall mx *sync.Mutex :: !mx.held
+//@   modifies inferred
+//@   ensures inTable: 0 <= result && result < len(transformationIDToName)
+//@   ensures named: transformationIDToName[result] == old(transformationIDToName[currentID]) + "+" + transformationName
+//@   ensures earlierKept: len(transformationIDToName) >= old(len(transformationIDToName)) &&
+//@       (forall i int :: 0 <= i && i < old(len(transformationIDToName)) ==> transformationIDToName[i] == old(transformationIDToName[i]))
+//@   ensures wf: idTableWF()
+//@   ensures lockReleased: forall mx *sync.Mutex :: mx.held == old(mx.held)
+// ==== END chain id section ====
